@@ -539,7 +539,11 @@ class ObjectPairs(Suite):
                # after an object of a class that extends the inherited ignore list in place was rendered in the process
                dict(cls='AutoW', a1={'lr': 0.1, 'workers': 4}, a2={'lr': 0.1, 'workers': 8}, prime={'__auto__': 'AutoX', 'args': {'source': 's'}}),
                dict(cls='AutoW', a1={'lr': 0.1, 'batch_size': 32}, a2={'lr': 0.1, 'batch_size': 64}, prime={'__auto__': 'AutoX', 'args': {'source': 's'}}),
-               dict(cls='AutoA', a1={'a': 1, 'b': 2}, a2={'a': 1, 'b': 3}, prime={'__auto__': 'AutoX', 'args': {'source': 's', 'workers': 2}})]
+               dict(cls='AutoA', a1={'a': 1, 'b': 2}, a2={'a': 1, 'b': 3}, prime={'__auto__': 'AutoX', 'args': {'source': 's', 'workers': 2}}),
+               # objects of two classes that inherit one constructor, with equal arguments: the class is part of the value
+               dict(cls='AutoRidge', cls2='AutoLasso', a1={'alpha': 0.5}, a2={'alpha': 0.5}),
+               dict(cls='AutoRegressor', cls2='AutoRidge', a1={'alpha': 0.5, 'max_iter': 10}, a2={'alpha': 0.5, 'max_iter': 10}),
+               dict(cls='AutoRidge', a1={'alpha': 0.5}, a2={'alpha': 0.25})]
         # a class edited and reloaded within one process (notebook autoreload): the class object is new, the name is not
         out += [dict(redefined=True, first=['a'], second=['a', 'b'], a1={'a': 1, 'b': 1}, a2={'a': 1, 'b': 2}),
                 dict(redefined=True, first=['a', 'b'], second=['b', 'c', 'a'], a1={'a': 1, 'b': 1, 'c': [1]}, a2={'a': 1, 'b': 1, 'c': [2]}),
@@ -584,12 +588,12 @@ class ObjectPairs(Suite):
                 sys.modules.pop('tcv_redef', None)
         if case.get('prime'):
             materialize(case['prime']).repr()
-        for args in (case['a1'], case['a2']):
-            spec = {'__auto__': case['cls'], 'args': args}
+        for cname, args in ((case['cls'], case['a1']), (case.get('cls2', case['cls']), case['a2'])):
+            spec = {'__auto__': cname, 'args': args}
             reg = ParameterRegistry([Parameter('p')])
             reg.set_values({'p': materialize(spec)})
             texts.append(reg.repr)
-            kept.append(json.dumps(sorted([k, tagged(v)] for k, v in filtered_auto_args(spec).items()), sort_keys=True))
+            kept.append(json.dumps([cname, sorted([k, tagged(v)] for k, v in filtered_auto_args(spec).items())], sort_keys=True))
         return dict(texts=texts, kept=kept)
 
     def oracle(self, case, obs):
